@@ -65,6 +65,12 @@ CHECKS = {
    design="5 (C07), 4.3, 4.7",
    note="events come from the hooks in stack.rs / thread.rs / gc.rs; the transient placement of a tail call's arguments above the popped frame is exempt from DepthBound; native-stack exhaustion is observed as a signal of the isolated worker",
    technique="TLC model checking (MemLimit, VMFrames, TailCtx) + trace validation of recorded frame / gc events + limit sweeps"),
+ "C03": dict(
+   level="model_checking",
+   text="LangW.tla is algorithm W written in TLA+ (substitutions, occurs check, let-generalisation, Remy-style presence types for records over {x, y}); TLC enumerates every closed untyped term of the ML fragment (lambda, application, let, if, match on Option, tuples, records, field access, None/Some, arrays) up to 5-6 nodes and focused production sets up to 7-9 nodes and computes `untypable` or the principal type in canonical form. Each term is typechecked by gluon: a typable term must be accepted and the reported type must equal the principal type up to renaming and placement of quantifiers; renaming bound variables, adding an unused binding and annotating with the reported type must not change acceptance or type.",
+   design="5 (C03), 4.8",
+   note="types in which gluon keeps quantifiers inside records / tuples are compared by structure only (the property allows a different placement of quantifiers); acceptance of untypable terms and crashes on untypable terms are recorded as divergences (they are C02's and C09's claims)",
+   technique="algorithm W in TLA+ evaluated by TLC over an exhaustive term enumeration + replay into the real checker with metamorphic variants"),
 }
 NOT_BUILT = "check not built yet (work in progress; see DESIGN.md section 5)"
 NA = {}
